@@ -589,6 +589,8 @@ class PolyCtx:
         self.memo = {}
         self.subst = {}        # atom index -> Poly (substitution applied when atom is created)
         self.rmemo = {}
+        self.canon_trig = False    # identify sin/cos atoms whose arguments are equal polynomials (up to sign: parity lemmas)
+        self.trig_keys = {}
 
     def atom(self, t):
         i = self.atom_of.get(t.id)
@@ -622,6 +624,23 @@ class PolyCtx:
                 p = -g(n.args[0])
             elif op == 'fdiv' and not isinstance(n.args[1], Term):
                 p = g(n.args[0]).scale(1 / Fraction(n.args[1]))
+            elif self.canon_trig and op in ('sin', 'cos') and isinstance(n.args[0], Term):
+                ap = memo[n.args[0].id]
+                items = sorted(ap.d.items())
+                sign = 1
+                if items and items[0][1] < 0:
+                    sign = -1
+                    items = [(m, -c) for m, c in items]
+                key = (op, tuple(items))
+                i = self.trig_keys.get(key)
+                if i is None:
+                    i = self.atom(n)
+                    self.trig_keys[key] = i
+                else:
+                    self.atom_of[n.id] = i
+                p = Poly.atom(i)
+                if op == 'sin' and sign < 0:
+                    p = -p
             else:
                 i = self.atom(n)
                 p = self.subst.get(i)
@@ -724,6 +743,30 @@ def rebuild(t, choose):
             r = fneg(a[0])
         elif op == 'var':
             r = n
+        elif op == 'fabs':
+            r = fabs_(a[0])
+        elif op == 'fcmp':
+            r = fcmp({'eq': 'oeq', 'ne': 'one', 'lt': 'olt', 'le': 'ole', 'gt': 'ogt', 'ge': 'oge'}[n.aux], a[0], a[1])
+        elif op == 'not':
+            r = bnot(a[0])
+        elif op == 'and':
+            r = band(a[0], a[1])
+        elif op == 'or':
+            r = bor(a[0], a[1])
+        elif op == 'xor':
+            r = bxor(a[0], a[1])
+        elif op == 'icmp':
+            r = icmp(n.aux[0], a[0], a[1], n.aux[1])
+        elif op.startswith('bv'):
+            r = bvop(op[2:], a[0], a[1], n.sort[1])
+        elif op == 'zext':
+            r = zext(a[0], n.aux, n.sort[1])
+        elif op == 'sext':
+            r = sext(a[0], n.aux, n.sort[1])
+        elif op == 'trunc':
+            r = trunc(a[0], n.aux, n.sort[1])
+        elif op == 'itofp':
+            r = itofp(a[0], n.aux[0], n.aux[1])
         else:
             r = mk(op, a, n.sort, n.aux)
         memo[n.id] = r
